@@ -25,7 +25,11 @@ KeySet == { k \in Keys : k.alg \in AttrFor(k.kty) }
           \cup { OctKey(n, "a", a, NONE) : n \in OctLens, a \in AttrFor("oct") }
 HdrAlgs == RealAlgs \cup {"none", "None", "NONE", "hs256", "HS256 ", "bogus", NONE, "#int", "#null"} \cup NearMiss("HS256") \cup NearMiss("RS256") \cup {"ES", "Ed", "E", "H"}
 \* "validcfg": a genuine signature by the checker's key under the checker's algorithm, whatever the header says
-SigClasses == {"empty", "garbage", "valid", "validcfg", "hmacempty", "hmacpubpem", "otherkey"}
+\* "validnative": a genuine signature by the checker's key under the algorithm that key is made for (a token
+\* labelled EdDSA carrying an ECDSA signature by the EC key the checker was - wrongly but admissibly - given)
+SigClasses == {"empty", "garbage", "valid", "validcfg", "validnative", "hmacempty", "hmacpubpem", "otherkey"}
+Native(k) == CASE k.kty = "oct" -> "HS256" [] k.kty = "RSA" -> "RS256" [] k.kty = "OKP" -> "EdDSA"
+               [] k.bits = 256 -> (IF k.crv = "secp256k1" THEN "ES256K" ELSE "ES256") [] k.bits = 384 -> "ES384" [] OTHER -> "ES512"
 Routes == {"setkey", "cb-both", "cb-key", "cb-alg"}
 OtherKey(k) == IF k.kty = "oct" THEN [k EXCEPT !.var = "b"]
                ELSE CASE k.base = "rsa2048a" -> AsymKey("rsa2048b", 0, NONE, NONE)
@@ -53,6 +57,7 @@ TokCells(ak) == { [part |-> "B", side |-> "checker", calg |-> ak[1], haskey |-> 
 TokFam == [ak \in AdmittedCfg |-> { c \in TokCells(ak) :
                   /\ (c.sig \in {"hmacempty", "hmacpubpem"} => c.halg \in HSAlgs)
                   /\ (c.sig = "hmacpubpem" => c.key.kty # "oct")
+                  /\ (c.sig = "validnative" => c.halg \in RealAlgs /\ c.halg # Native(c.key) /\ c.route \in {"setkey", "cb-both"})
                   /\ (c.sig = "validcfg" => (c.calg # "none" \/ KeyAlg(c.key) # "none") /\ c.route \in {"setkey", "cb-both"})
                   /\ (c.route = "cb-alg" => c.calg # "none")
                   /\ (c.route = "cb-key" => c.calg = "none")
@@ -76,6 +81,7 @@ SigOf(c) == CASE c.sig = "empty" -> EmptySig
               [] c.sig = "garbage" -> [Sig("garbage", "HS256", DummyKey) EXCEPT !.cls = "garbage"]
               [] c.sig = "valid" -> Sig("valid", c.halg, c.key)
               [] c.sig = "validcfg" -> Sig("valid", IF c.calg = "none" THEN KeyAlg(c.key) ELSE c.calg, c.key)
+              [] c.sig = "validnative" -> Sig("valid", Native(c.key), c.key)
               [] c.sig = "hmacempty" -> Sig("hmacempty", c.halg, DummyKey)
               [] c.sig = "hmacpubpem" -> Sig("hmacpubpem", c.halg, c.key)
               [] c.sig = "otherkey" -> Sig("valid", c.halg, OtherKey(c.key))
